@@ -1336,7 +1336,7 @@ Proof.
   - unfold G1.
     refine (conj H1 (conj _ (conj _ (conj _ (conj _ (conj _ (conj _ (conj _ (conj _ _))))))))).
     + rewrite S1. simpl stack. constructor.
-      * unfold frel. simpl. rewrite upd_same. repeat split; auto. Show.
+      * unfold frel. simpl. rewrite upd_same. repeat split; auto. congruence.
       * eapply (Forall2_frel_ext fi fl) with (s := s1); [exact FRr| |auto|exact FLo|auto].
         intros f0 If. apply H6. rewrite E1. right. exact If.
     + intros a0 [<-|Ia]; simpl.
@@ -1357,7 +1357,7 @@ Proof.
       * intros Q. specialize (LT _ R). rewrite Q in LT. simpl in LT. lia.
       * intros Q. specialize (LT _ R'). rewrite <- Q in LT. simpl in LT. lia.
   - apply (G2_mono s1 s' A' A' fi fl _ _ g2); auto. rewrite S1. reflexivity.
-  - apply (G3_same s1 s' A' A' fi g3); auto; rewrite S1; try reflexivity. intros; simpl; tauto.
+  - apply (G3_same s1 s' A' A' fi g3); auto; try (rewrite S1; reflexivity); try (intros e0; rewrite S1; simpl; tauto).
   - unfold G5. assert (OU : outs s' = outs s1) by (rewrite S1; reflexivity). rewrite OU.
     eapply Forall2_impl'; [|exact g5]. intros o0 na Q.
     apply (orel_mono s1 s' fi fl _ _ o0 na Q); auto. rewrite S1. simpl. auto.
